@@ -137,6 +137,11 @@ pub fn run_check(replay: Option<Value>) -> i32 {
                                     if !thorough && fi != 0 {
                                         continue;
                                     }
+                                    // (the fast rotations only at the origin of the time axis: at |t| = 1000 the rounding of
+                                    // the abscissae alone, w ulp(t) per step, exceeds the tighter tolerances)
+                                    if vars[vi].prob.name.starts_with("spiral(0,") && *sh != 0.0 {
+                                        continue;
+                                    }
                                     let key = if fi == 0 { format!("acc:{}.{}.{}.{}.{}.{}.{}", mi, vi, di, si, oi, te as u8, hi) } else { format!("acc:{}.{}.{}.{}.{}.{}.{}.{}", mi, vi, di, si, oi, te as u8, hi, fi) };
                                     jobs.push(Job { key, method: *m, shift: *sh, span_factor: *sf, vi, dir: *d, scale: *sc, mode: *mode, teval: te });
                                 }
